@@ -1054,7 +1054,7 @@ def inlined_constants_are_literals(ctx):
     n = 0
     for what, v in values:
         obj = Instance(ndb.name, methods)
-        hi = HostInterp({}, Record(), {}, globals_env={"count": lambda *a: Record(kind="counter")}, classes={ndb.name: methods}, functions={})
+        hi = HostInterp({}, Record(), {}, globals_env={"count": lambda *a: __import__("itertools").count(*a)}, classes={ndb.name: methods}, functions={})
         try:
             hi.call_function(methods["__init__"], [obj, "INJECT"], {}, {})
             got = hi.call_function(get.node, [obj, v], {}, {})
